@@ -38,7 +38,7 @@ Theorem C17_utc_time_denotes_instant : forall cs clock tfmt,
   render_clock cfg_src false tfmt cs clock = time_loop cfg_src tfmt (broken_down true t) 0 (str "UTC")
   /\ bdt_denotes (broken_down true t) t
   /\ Z.abs (d * giga - f * (t - Z.of_N (cs_ns cs))) < f.
-Proof. intros. now apply utc_time_denotes. Qed.
+Proof. unfold cfg_src. generalize (eq_refl : SrcFacts.time_floor = true). generalize SrcFacts.time_floor. intros b_ ->. generalize (eq_refl : SrcFacts.time_yy_nonneg = true). generalize SrcFacts.time_yy_nonneg. intros b2_ ->. generalize (eq_refl : SrcFacts.time_tz_wide = true). generalize SrcFacts.time_tz_wide. intros b3_ ->. intros. now apply utc_time_denotes. Qed.
 Print Assumptions C17_utc_time_denotes_instant.
 
 (** %d: producer-local time = the same instant shifted by the zone offset of the clock sync, printed with that
@@ -53,7 +53,7 @@ Theorem C17_local_time_denotes_instant : forall cs clock tfmt,
   render_clock cfg_src true tfmt cs clock
     = time_loop cfg_src tfmt (broken_down true (t + tz * giga)) tz (cstr_t (cs_tzname cs))
   /\ bdt_denotes (broken_down true (t + tz * giga)) (t + tz * giga).
-Proof. intros. now apply local_time_denotes. Qed.
+Proof. unfold cfg_src. generalize (eq_refl : SrcFacts.time_floor = true). generalize SrcFacts.time_floor. intros b_ ->. generalize (eq_refl : SrcFacts.time_yy_nonneg = true). generalize SrcFacts.time_yy_nonneg. intros b2_ ->. generalize (eq_refl : SrcFacts.time_tz_wide = true). generalize SrcFacts.time_tz_wide. intros b3_ ->. intros. now apply local_time_denotes. Qed.
 Print Assumptions C17_local_time_denotes_instant.
 
 (** without a usable clock sync the placeholder is printed *)
@@ -74,4 +74,4 @@ Print Assumptions C17_truncation_refuted.
 (** non-vacuity: a sync at the epoch, 1 GHz, zone -1h, clock 1800.5 s: local time is 1969-12-31 23:30:00.5 *)
 Example C17_nonvacuous :
   broken_down SrcFacts.time_floor (1800500000000 + (-3600) * giga) = mkBdt 1969 12 31 23 30 0 500000000.
-Proof. vm_compute. reflexivity. Qed.
+Proof. generalize (eq_refl : SrcFacts.time_floor = true). generalize SrcFacts.time_floor. intros b_ ->. vm_compute. reflexivity. Qed.
